@@ -19,6 +19,34 @@ pub struct PartCase {
     pub pivot: usize,
     pub stride: isize,
     pub offset: usize,
+    /// element type the values are converted to: 0 = i64, 1 = i128, 2 = BigInt, 3 = i16
+    #[serde(default)]
+    pub elem: u8,
+}
+
+/// Element types of the partition check (different sizes: a routine may dispatch on them).
+pub trait PEl: El + Ord + Clone + std::fmt::Debug + std::fmt::Display {
+    fn from_i(v: i64) -> Self;
+}
+impl PEl for i64 {
+    fn from_i(v: i64) -> Self {
+        v
+    }
+}
+impl PEl for i128 {
+    fn from_i(v: i64) -> Self {
+        v as i128 * 1_000_000_007
+    }
+}
+impl PEl for i16 {
+    fn from_i(v: i64) -> Self {
+        v as i16
+    }
+}
+impl PEl for num_bigint::BigInt {
+    fn from_i(v: i64) -> Self {
+        num_bigint::BigInt::from(v) * num_bigint::BigInt::from(1u64 << 40) * num_bigint::BigInt::from(1u64 << 40)
+    }
 }
 
 #[derive(Clone, Debug, Serialize, Deserialize, Hash)]
@@ -55,8 +83,18 @@ fn is_nontrivial_values(v: &[i64]) -> bool {
 // C15: partition_mut
 
 pub fn check_partition(c: &PartCase) -> CheckResult {
+    match c.elem % 4 {
+        1 => check_partition_t::<i128>(c),
+        2 => check_partition_t::<num_bigint::BigInt>(c),
+        3 => check_partition_t::<i16>(c),
+        _ => check_partition_t::<i64>(c),
+    }
+}
+
+pub fn check_partition_t<T: PEl>(c: &PartCase) -> CheckResult {
     let n = c.values.len();
-    let mut buf = make_buf(&c.values, c.offset, c.stride, 1);
+    let values: Vec<T> = c.values.iter().map(|&v| T::from_i(v)).collect();
+    let mut buf = make_buf(&values, c.offset, c.stride, 1);
     let in_range = c.pivot < n;
     let res = {
         let mut v = view1(&mut buf, c.offset, n, c.stride);
@@ -83,44 +121,48 @@ pub fn check_partition(c: &PartCase) -> CheckResult {
             "panic",
             "partition_mut({}) on {:?} (in range, length {}) panicked: {}",
             c.pivot,
-            c.values,
+            values,
             n,
             p
         ),
     };
-    let pv = c.values[c.pivot];
-    let after: Vec<i64> = positions(c.offset, n, c.stride).iter().map(|&p| buf[p]).collect();
-    let rank = c.values.iter().filter(|&&x| x < pv).count();
+    let pv = values[c.pivot].clone();
+    let after: Vec<T> = positions(c.offset, n, c.stride).iter().map(|&p| buf[p].clone()).collect();
+    let rank = values.iter().filter(|x| **x < pv).count();
     ensure!(
         k == rank,
         "wrong-value",
         "partition_mut({}) on {:?} returned {}, but {} elements are strictly smaller than the pivot value {}",
         c.pivot,
-        c.values,
+        values,
         k,
         rank,
         pv
     );
     ensure!(k < n && after[k] == pv, "wrong-value", "position {} holds {:?}, not the pivot value {} (after: {:?})", k, after.get(k), pv, after);
-    for (j, &x) in after.iter().enumerate() {
+    for (j, x) in after.iter().enumerate() {
         if j < k {
-            ensure!(x < pv, "wrong-value", "element {} at position {} < k={} is not < pivot {} (after: {:?})", x, j, k, pv, after);
+            ensure!(*x < pv, "wrong-value", "element {} at position {} < k={} is not < pivot {} (after: {:?})", x, j, k, pv, after);
         } else if j > k {
-            ensure!(x >= pv, "wrong-value", "element {} at position {} > k={} is not >= pivot {} (after: {:?})", x, j, k, pv, after);
+            ensure!(*x >= pv, "wrong-value", "element {} at position {} > k={} is not >= pivot {} (after: {:?})", x, j, k, pv, after);
         }
     }
     let mut a = after.clone();
-    a.sort_unstable();
-    let mut b = c.values.clone();
-    b.sort_unstable();
-    ensure!(a == b, "multiset", "partition_mut changed the multiset: before {:?}, after {:?}", c.values, after);
+    a.sort();
+    let mut b = values.clone();
+    b.sort();
+    ensure!(a == b, "multiset", "partition_mut changed the multiset: before {:?}, after {:?}", values, after);
     if let Err(e) = guards_intact(&buf, c.offset, n, c.stride) {
         fail!("guard", "{}", e);
     }
     Ok(Info::new(n >= 2)
         .class_if(n == 1, "len-1")
         .class_if(c.stride != 1, "strided")
-        .class_if(c.stride < 0, "negative-stride"))
+        .class_if(c.stride < 0, "negative-stride")
+        .class_if(c.elem % 4 == 1, "elem:i128")
+        .class_if(c.elem % 4 == 2, "elem:BigInt")
+        .class_if(c.elem % 4 == 3, "elem:i16")
+        .class_if(n >= 64 && n % 64 <= 1, "length:multiple-of-64(+1)"))
 }
 
 // ---------------------------------------------------------------------------------------
@@ -344,15 +386,22 @@ fn stride_strategy() -> impl Strategy<Value = isize> {
 }
 
 
+/// Lengths at which a blocked / unrolled implementation changes regime.
+fn special_length_values() -> impl Strategy<Value = Vec<i64>> {
+    (proptest::sample::select(vec![31usize, 32, 33, 63, 64, 65, 127, 128, 129, 191, 192, 193, 255, 256, 257, 320, 384, 448, 512]), prop_oneof![Just(3i64), Just(50i64), Just(100_000i64)])
+        .prop_flat_map(|(n, span)| proptest::collection::vec(0i64..span, n))
+}
+
 pub fn part_strategy(max_len: usize) -> impl Strategy<Value = PartCase> {
-    (values_strategy(max_len), any::<u16>(), stride_strategy(), 0usize..3, 0u8..20).prop_map(|(mut values, p, stride, offset, oor)| {
+    (prop_oneof![5 => values_strategy(max_len).boxed(), 1 => special_length_values().boxed()], any::<u16>(), stride_strategy(), 0usize..3, 0u8..20, 0u8..8).prop_map(|(mut values, p, stride, offset, oor, el)| {
+        let elem = if el < 5 { 0 } else { el - 4 };
         if values.is_empty() {
             values.push(0);
         }
         let n = values.len();
         // 5% out-of-range positions (C16 direction)
         let pivot = if oor == 0 { n + (p as usize % 3) } else { (p as usize * n) >> 16 };
-        PartCase { values, pivot, stride, offset }
+        PartCase { values, pivot, stride, offset, elem }
     })
 }
 
@@ -453,7 +502,7 @@ fn enum_partition(ctx: &Ctx, max_n: usize, with_oor: bool, only_oor_and_small: b
             }
             for &pivot in &positions {
                 for &(stride, offset) in STRIDES.iter() {
-                    let c = PartCase { values: values.clone(), pivot, stride, offset };
+                    let c = PartCase { values: values.clone(), pivot, stride, offset, elem: (item % 4) as u8 };
                     match guarded(&check_partition, &c) {
                         Ok(info) => {
                             evals += 1;
@@ -705,7 +754,7 @@ pub fn run_c16(ctx: &Ctx) {
     enum_select(ctx, 1, t.pick(5, 6), false, false);
     enum_bulk(ctx, 1, t.pick(4, 5), false);
     // the empty array: partition / selection at 0
-    for c in [PartCase { values: vec![], pivot: 0, stride: 1, offset: 0 }, PartCase { values: vec![], pivot: usize::MAX, stride: 1, offset: 1 }] {
+    for c in [PartCase { values: vec![], pivot: 0, stride: 1, offset: 0, elem: 0 }, PartCase { values: vec![], pivot: usize::MAX, stride: 1, offset: 1, elem: 1 }] {
         if !ctx.enum_case("partition", &c, &check_partition) {
             return;
         }
